@@ -36,7 +36,8 @@ CONSTANTS
   Dev_UnboundedSessionBuffer,   \* F-18b a declared length beyond the maximum is buffered, not refused
   Dev_ControlLen126Stalls,      \* F-18c long / fragmented control frame = "incomplete" for ever
   Dev_ClientNoUtf8Check,        \* F-18d the client delivers text that is not UTF-8
-  Dev_RsvSwallows,              \* reserved bits: the frame "consumes" everything that was read with it
+  Dev_RsvSwallows,              \* reserved bits: the frame "consumes" everything that was read with it (framing is lost,
+                                \* but nothing the property forbids happens: no invariant fails with this flag alone)
   Dev_OversizeKeepsSession      \* a message beyond the maximum is answered with 1009 but the session and the
                                 \* fragment buffer stay (it keeps growing with further continuation frames)
 
